@@ -181,7 +181,17 @@ func TestC16(t *testing.T) {
 			}
 			g2 := n.genG2(rng, quick)
 			if quick {
-				g2 = pick(rng, g2, 60)
+				// sentinels (the classes of the property statement and the known
+				// failure classes) run whatever the seed; the rest is sampled
+				var keep, rest []*g2Case
+				for _, c := range g2 {
+					if g2Sentinel(c) {
+						keep = append(keep, c)
+					} else {
+						rest = append(rest, c)
+					}
+				}
+				g2 = append(keep, pick(rng, rest, 45)...)
 			}
 			for _, c := range g2 {
 				c := c
